@@ -45,3 +45,18 @@ cfg("MC_exec_abstract5.cfg", exec_consts(FieldAlpha="<- AlphaAbstract", Aliases=
 cfg("MC_exec_frag5.cfg", exec_consts(FieldAlpha="<- AlphaFrag", Aliases='= {""}', Conds='= {"T", "P", "A", "Query"}', MaxFrags="= 2", MaxSel="= 5", MaxOverlay="= 0"), EXEC_INV)
 cfg("MC_exec_dirs5.cfg", exec_consts(FieldAlpha="<- AlphaDirs", Aliases='= {""}', Conds='= {""}', DirOpts="<- DirsBoth", MaxSel="= 4", MaxOverlay="= 0"), EXEC_INV)
 cfg("MC_exec_lists5.cfg", exec_consts(FieldAlpha="<- AlphaLists", Aliases='= {""}', MaxSel="= 4"), EXEC_INV)
+
+# ---- C02: fault enumeration ------------------------------------------------------------
+FAULT_INV = ["R1_Faults", "EmitF"]
+def fault_consts(**kw):
+    d = exec_consts(MaxOverlay="= 0", MaxFaults="= 1", MaxSel="= 3")
+    d.update(kw)
+    return d
+cfg("MC_faults_layout.cfg", fault_consts(FieldAlpha="<- AlphaLayout", Aliases='= {""}', MaxFaults="= 2", MaxSel="= 2"), FAULT_INV, spec="SpecF")
+cfg("MC_faults_nested.cfg", fault_consts(FieldAlpha="<- AlphaNested", Aliases='= {""}', MaxFaults="= 1", MaxSel="= 3"), FAULT_INV, spec="SpecF")
+cfg("MC_faults_abstract.cfg", fault_consts(FieldAlpha="<- AlphaAbstractF", Aliases='= {""}', Conds='= {"", "A"}', MaxFaults="= 1", MaxSel="= 3"), FAULT_INV, spec="SpecF")
+cfg("MC_faults_pairs.cfg", fault_consts(FieldAlpha="<- AlphaPairs", Aliases='= {"", "z"}', MaxFaults="= 2", MaxSel="= 3"), FAULT_INV, spec="SpecF")
+cfg("MC_faults_mut.cfg", fault_consts(FieldAlpha="<- AlphaMutF", OpTypes='= {"mutation"}', Aliases='= {""}', MaxFaults="= 2", MaxSel="= 3"), FAULT_INV, spec="SpecF")
+cfg("MC_faults_args.cfg", fault_consts(FieldAlpha="<- AlphaArgsF", ArgOpts="<- ArgOptsFail", Aliases='= {"", "z"}', MaxFaults="= 1", MaxSel="= 3"), FAULT_INV, spec="SpecF")
+cfg("MC_faults_layout3.cfg", fault_consts(FieldAlpha="<- AlphaLayout", Aliases='= {""}', MaxFaults="= 2", MaxSel="= 3"), FAULT_INV, spec="SpecF")
+cfg("MC_faults_nested4.cfg", fault_consts(FieldAlpha="<- AlphaNested", Aliases='= {""}', MaxFaults="= 2", MaxSel="= 4"), FAULT_INV, spec="SpecF")
